@@ -425,7 +425,7 @@ pub fn run(tier: Tier) -> i32 {
             check(&es, "kinds applied globally");
         }
         // distance 2 (thorough): all pairs of single sites
-        if tier.thorough() && !name.starts_with("c0") && !name.starts_with("c1") {
+        if tier.thorough() && !name.starts_with("c0") && !name.starts_with("c1") && !name.starts_with("x-device") {
             // (pairs run over one alternative per site and kind - the first comment text; every
             // alternative is covered singly above)
             let mut seen: std::collections::BTreeSet<(usize, usize, &str)> = std::collections::BTreeSet::new();
@@ -459,7 +459,7 @@ pub fn run(tier: Tier) -> i32 {
     let coverage = cov(json!({
         "evaluations": evals.load(Ordering::Relaxed),
         "distinct_nontrivial": dr,
-        "rule": "corpus of valid programs (every construct of the grammar) + programs rendered from the C08/C10 reference models; every applicable rewrite site singly (distance 1), every rewrite group applied globally and all 2^k combinations of the 14 groups, thorough: all pairs of single sites; oracle: both images, the four sizes, ram_filling and messages unchanged and the build still succeeds. distinct_nontrivial = distinct respelled program texts built",
+        "rule": "corpus of valid programs (every construct of the grammar) + programs rendered from the C08/C10 reference models; every applicable rewrite site singly (distance 1), every rewrite group applied globally and all 2^k combinations of the 14 groups, thorough: all pairs of single sites (not for the 520-line program that fills a device); oracle: both images, the four sizes, ram_filling and messages unchanged and the build still succeeds. distinct_nontrivial = distinct respelled program texts built",
         "exhaustive": true,
         "programs": usable.len(),
         "single_sites": n_sites.load(Ordering::Relaxed),
